@@ -75,6 +75,8 @@ def whereTag (s : Setup) (o : Obs) (fine : Bool) : String :=
     else "drop-after-body"
   else if s.fault.startsWith "cksum-bad" then "checksum"
   else if s.fault.startsWith "cksum-good" then "good-checksum"
+  else if s.fault = "md5-bad" then "content-md5"
+  else if s.fault = "md5-good" then "good-content-md5"
   else if s.fault = "metafail" || s.fault = "infofail" then "sidefile-write-fails"
   else if s.fault = "destdir" then "dest-is-dir"
   else if s.keymode = "parentfile" then "parent-is-file"
